@@ -7,7 +7,10 @@ use crate::spmc::topic::sync_impl::{TopicReceiver, TopicSender};
 use crate::{CloseError, TryRecvError};
 
 use std::borrow::Borrow;
+#[cfg(not(excsn_fibre_verif))]
 use std::collections::HashSet;
+#[cfg(excsn_fibre_verif)]
+use fibre_verif_rt::hash::HashSet;
 use std::future::Future;
 use std::hash::Hash;
 use std::mem;
